@@ -314,6 +314,16 @@ impl Reader {
 					)));
 				}
 
+				// Validate the checksum before acting on the record. The writer emits
+				// a CRC over type and payload for this record type too; without this
+				// check a damaged type byte (Full = 1 -> 9 is a single bit) turns a
+				// data record into a metadata record that is skipped silently.
+				let record_data =
+					&self.buffer[self.buffer_offset..self.buffer_offset + length as usize];
+				if calculate_crc32(&[type_byte], record_data) != crc {
+					return Err(Error::IO(IOError::new(io::ErrorKind::Other, "checksum mismatch")));
+				}
+
 				// Parse and store compression type
 				if length > 0 {
 					let compression_byte = self.buffer[self.buffer_offset];
